@@ -626,7 +626,7 @@ class Interp(object):
         return None
 
     def getitem(self, obj, idx):
-        if isinstance(obj, (Sym, FmtStr, SymSeq)) or isinstance(idx, Sym):
+        if isinstance(obj, (Sym, FmtStr, SymSeq)) or isinstance(idx, (Sym, FmtStr)):
             return sym_getitem(self, obj, idx)
         d = self.dunder(obj, '__getitem__')
         if d is not None:
